@@ -59,7 +59,7 @@ theorem runRange_growth (passes : Array PassT) (c : Ctx) (lo hi fuel : Nat) (c' 
       ∀ a, ks.foldl (fun (acc : Except String (Option Ctx)) k =>
         match acc with
         | .ok (some c1) =>
-          (match runPass (passes.getD (lo + k) default) c1 fuel with
+          (match runPassDir (passes.getD (lo + k) default) c1 fuel with
            | .ok (some c2) => if c2.seg.numGlyphs > 0 ∧ c2.seg.numGlyphs > c.seg.numGlyphs * 64 then .ok none else .ok (some c2)
            | o => o)
         | o => o) acc = .ok (some a) → a.seg.numGlyphs ≤ c.seg.numGlyphs * 64 ∨ a.seg.numGlyphs = c.seg.numGlyphs := by
@@ -78,7 +78,7 @@ theorem runRange_growth (passes : Array PassT) (c : Ctx) (lo hi fuel : Nat) (c' 
         | none => cases hb
         | some c1 =>
           simp only [] at hb
-          generalize runPass (passes.getD (lo + k) default) c1 fuel = rp at hb
+          generalize runPassDir (passes.getD (lo + k) default) c1 fuel = rp at hb
           cases rp with
           | error e => cases hb
           | ok w =>
